@@ -6,11 +6,11 @@ From SV Require Import Lib.Base Gen.RateLimitConsts Model.RateLimit Proofs.RateL
 Local Open Scope N_scope.
 
 (* The numbers the property text states, from the constants regenerated from src/rate_limit.rs:
-   1 per /64, 5 per /48, 3 per /24 per hour; global burst 10 and 100 per minute. *)
+   1 per /64, 5 per /48, 3 per /24 per hour; global burst 10 and 100 per minute; the LRU holds 100000 keys. *)
 Theorem C14_constants :
   j_per64 jcfg_default = 1 /\ j_per48 jcfg_default = 5 /\ j_per24 jcfg_default = 3 /\
   W64 = 3600 * NS /\ W48 = 3600 * NS /\ W24 = 3600 * NS /\
-  j_gburst jcfg_default = 10 /\ j_gmax jcfg_default = 100 /\ WG = 60 * NS /\ 0 < RL_MAX_KEYS.
+  j_gburst jcfg_default = 10 /\ j_gmax jcfg_default = 100 /\ WG = 60 * NS /\ RL_MAX_KEYS = 100000.
 Proof. repeat split; reflexivity. Qed.
 
 (* ---- one bucket ---- *)
